@@ -212,9 +212,14 @@ func main() {
 				return true
 			})
 			o.Def("diffEnvDepths", "List Nat", lib.LeanNatList(depths))
-			// the part of diffEnv that turns the mapping diff into the reason (the comparison in front of it is
-			// the business of C08/D16 and may change without touching the reason)
-			keep := func(s ast.Stmt) bool { return mentions(s, "reasons", "reason", "functionEnvKeys", "md") }
+			// the outcomes of diffEnv (every return with the condition it sits under) and the part that turns the
+			// mapping diff into the reason
+			keep := func(s ast.Stmt) bool {
+				if _, ok := s.(*ast.ReturnStmt); ok {
+					return true // every outcome of diffEnv, with the condition it is returned under
+				}
+				return mentions(s, "reasons", "reason", "functionEnvKeys", "md")
+			}
 			o.Def("reasonSkeleton", "String", lib.LeanLongString(lib.NormFuncKeep(fd, keep)))
 		}
 	}
